@@ -53,3 +53,7 @@ Print Assumptions C16_fork_memory_survives_other_closes.
 Theorem C16_close_all_refuted : exists ops, forks_ok CloseAll [] [] ops = false.
 Proof. exact registry_close_all_refuted. Qed.
 Print Assumptions C16_close_all_refuted.
+
+(* two runners open, the second one closed, then the first forks: with the source's close() the fork finds its entry *)
+Example C16_registry_example : forks_ok fork_close_src [] [] [ROpen 1; ROpen 2; RClose 2; RFork 1; RClose 1; RFork 1] = true.
+Proof. vm_compute. reflexivity. Qed.
